@@ -202,8 +202,7 @@ def run_ro(spec, ctx):
                     else:
                         y[i].adapt(z[j // 2, j % 2])
         ys.append(y)
-    if spec['late_rvar']:
-        m.rvar(2)          # declared after adapt(), never used
+    w2 = m.rvar(2) if spec['late_rvar'] else None   # declared after adapt(); only used in queries
     zflat = z if len(spec['zshape']) == 1 else z.reshape((nz,))
     uset = (z >= -1, z <= 1)
     # objective: affine in the pinned variables
@@ -314,8 +313,66 @@ def run_ro(spec, ctx):
         want = w[0] * base[0] * v.reshape(-1)[0] + v.sum() + 1.0
         q.eq('biaffine(z.assign)', lambda: e(z.assign(v)), want, shape=False)
         q.eq('biaffine()', lambda: e(), 1.0, shape=False)
+    # random bi-affine expressions: any mix of decision-only, additive random, product and
+    # constant terms, evaluated with every subset of the random variables assigned
+    fam = set()
+    for _ in range(4):
+        terms = [t for t in ('dec', 'addz', 'addw', 'prod', 'const') if rng.random() < 0.55]
+        if w2 is None and 'addw' in terms:
+            terms.remove('addw')
+        if not ({'addz', 'addw', 'prod'} & set(terms)):
+            terms.append('addz')
+        vz = np.round(rng.uniform(-1, 1, tuple(spec['zshape'])), 2)
+        vw = np.round(rng.uniform(-1, 1, 2), 2)
+        cd = np.round(rng.uniform(-2, 2, x0.size), 2)
+        dz = np.round(rng.uniform(-2, 2, nz), 2)
+        gw = np.round(rng.uniform(-2, 2, 2), 2)
+        k0 = float(np.round(rng.uniform(-2, 2), 2))
+        i0, j0 = int(rng.integers(x0.size)), int(rng.integers(nz))
+        order = list(terms)
+        rng.shuffle(order)
+        e = None
+        for tname in order:
+            if tname == 'dec':
+                part = cd @ xf if shape != () else cd[0] * x
+            elif tname == 'addz':
+                part = dz @ zflat
+            elif tname == 'addw':
+                part = gw @ w2
+            elif tname == 'prod':
+                part = (1.5 * (xf[i0] if shape != () else x)) * zflat[j0]
+            else:
+                part = k0
+            e = part if e is None else e + part
+
+        def val(az, aw):
+            tot = 0.0
+            zz = vz.reshape(-1) if az else np.zeros(nz)
+            ww = vw if aw else np.zeros(2)
+            if 'dec' in terms:
+                tot += cd @ base if shape != () else cd[0] * base[0]
+            if 'addz' in terms:
+                tot += dz @ zz
+            if 'addw' in terms:
+                tot += gw @ ww
+            if 'prod' in terms:
+                tot += 1.5 * base[i0 if shape != () else 0] * zz[j0]
+            if 'const' in terms:
+                tot += k0
+            return tot
+        fam.add('+'.join(sorted(terms)))
+        q.eq('robiaffine(z)', lambda: e(z.assign(vz)), val(True, False), shape=False)
+        q.eq('robiaffine()', lambda: e(), val(False, False), shape=False)
+        if w2 is not None:
+            q.eq('robiaffine(z,w)', lambda: e(z.assign(vz), w2.assign(vw)), val(True, True),
+                 shape=False)
+            q.eq('robiaffine(w)', lambda: e(w2.assign(vw)), val(False, True), shape=False)
+        # vector-valued additive form
+        if shape != () and len(shape) == 1 and len(spec['zshape']) == 1 and nz == x0.size:
+            q.eq('(x+z)(z)', lambda: (x + 2.0 * z - 1.0)(z.assign(vz)), x0 + 2.0 * vz - 1.0)
     feats = {'front': 'ro', 'ndim': len(shape), 'rules': len(spec['rules']),
              'zshape': len(spec['zshape']), 'late_rvar': spec['late_rvar'],
+             'robiaffine': sorted(fam),
              'atoms': sorted(set(used_atoms)), 'sense': spec['sense'],
              'masks': sorted({'full' if np.array(r['mask']).all() else 'none'
                               if not np.array(r['mask']).any() else 'partial'
